@@ -74,6 +74,20 @@ func init() {
 			p := seqParams{Cfg: cfg, Alphabet: alpha, Prefixes: prefixes, Kinds: kinds}
 			jobs = append(jobs, seqJob(p, depth, 4, 120, "ops-on-expired-unswept"))
 		}
+		// a reload that is still queued (deferred executor) when its entry expires, and then ends in every way: a failed
+		// reload must not make the expired entry visible again
+		{
+			cfg := CacheCfg{Expiry: "writing", TTL: 100, Refresh: "writing", RefreshTTL: 40, Executor: "deferred", ClockStart: 1 << 40}
+			var prefixes [][]string
+			for _, trig := range []string{"load 1 err", "load 1 val", "load 1 nf", "refresh 1 err", "refresh 1 val", "bulkrefresh 1,2 err", "bulk 1,2 err"} {
+				for _, adv := range []int64{58, 59, 60, 60 + tickNs} {
+					// the maintenance queued by the writes runs first, so that the reload is the only queued task afterwards
+					prefixes = append(prefixes, []string{"set 2", "set 1", "runexec", "adv 41", trig, fmt.Sprintf("adv %d", adv)})
+				}
+			}
+			alpha := []string{"runexec", "getq 1", "get 1", "gete 1", "all", "coldest", "inv 1", "sea 1 50", "sia 1", "cipw 1", "adv 1", "cleanup", "save", "useiter"}
+			jobs = append(jobs, seqJob(seqParams{Cfg: cfg, Alphabet: alpha, Prefixes: prefixes, Kinds: kinds}, 3, 4, 120, "ops-on-expired-unswept"))
+		}
 		// the schedule dimension: the clock moves between operations of concurrent threads (coarse interleaving)
 		for _, ex := range []string{"caller"} {
 			cfg := CacheCfg{Expiry: "writing", TTL: 100, Executor: ex, ClockStart: 1 << 40}
